@@ -37,7 +37,9 @@ func MakeDistributed(
 
 // ValueAt returns the value of the load at a given t Parameter value.
 func (load *DistributedLoad) ValueAt(t nums.TParam) float64 {
-	if t.IsLessThan(load.StartT) || t.IsGreaterThan(load.EndT) {
+	isBeforeStart := t.IsLessThan(load.StartT) && !t.Equals(load.StartT)
+	isAfterEnd := t.IsGreaterThan(load.EndT) && !t.Equals(load.EndT)
+	if isBeforeStart || isAfterEnd {
 		return 0.0
 	}
 
